@@ -53,6 +53,13 @@ func (prop) Generate(rng *rand.Rand, tier string) []corr.Case {
 		}
 		cases = append(cases, corr.Case{Ops: bftsim.GenFork(rng, maxBlocks/2, kind), Tag: "fork"})
 	}
+	// header fields and heights at the integer extremes (bftsim/extreme.go): genesis heights 2^32-k,
+	// 2^31-k and 0, maxHeightGenerated / maxHeightPrevoted / commit heights 0, h-1, h, h+1, 2^31±1,
+	// 2^32-2, 2^32-1, batch sizes 1, 2 and longer than the chain; generated last so that the cases
+	// above are unchanged for a given seed
+	for i := 0; i < n/4; i++ {
+		cases = append(cases, corr.Case{Ops: bftsim.GenExtreme(rng, maxBlocks/2), Tag: "extreme"})
+	}
 	return cases
 }
 
@@ -169,6 +176,8 @@ func (prop) RunImpl(c corr.Case) ([]string, []corr.Fail) {
 		}
 	}
 	fails = append(fails, checkHistory(c, out)...)
+	// the votes implied by every single header (LIP-0058 rule with exact arithmetic, bftsim/votes.go)
+	fails = append(fails, bftsim.CheckVotes(c.Ops, out)...)
 	// monotonicity of the reported heights along the chain
 	var pm, pc uint64
 	var hist [][2]uint64 // heights before each block on the chain (restored by `revert`)
@@ -300,6 +309,9 @@ func (prop) Classify(c corr.Case, out []string) string {
 		}
 		return cl
 	}
+	if c.Tag == "extreme" {
+		return classifyExtreme(c, out, adv)
+	}
 	if c.Tag == "heavy" {
 		okp, errp := 0, 0
 		for i, o := range out {
@@ -330,4 +342,40 @@ func (prop) Classify(c corr.Case, out []string) string {
 		return "paramchange"
 	}
 	return ""
+}
+
+// classifyExtreme names what a case of the family "header fields at the integer extremes" exercised:
+// the region of the heights (top = within 2^32-1-400 of the wrap, mid = around 2^31), whether a
+// header claimed maxHeightGenerated 2^32-1 / 2^32-2, whether the block at 2^32-1 was tried, and
+// whether finality advanced there.
+func classifyExtreme(c corr.Case, out []string, adv bool) string {
+	region, claim, topTried := "low", "", false
+	for i, op := range c.Ops {
+		w := strings.Fields(op)
+		switch w[0] {
+		case "reset":
+			g, _ := strconv.ParseUint(w[2], 10, 64)
+			switch {
+			case g >= 1<<32-1-400:
+				region = "top"
+			case g >= 1<<31-400 && g <= 1<<31+400:
+				region = "mid"
+			}
+		case "block":
+			if w[1] == "4294967295" {
+				topTried = true
+			}
+			if strings.HasPrefix(out[i], "ok ") && (w[3] == "4294967295" || w[3] == "4294967294") {
+				claim = "+mhg-max"
+			}
+		}
+	}
+	cl := "extreme-" + region + claim
+	if topTried {
+		cl += "+last-height"
+	}
+	if adv {
+		cl += "+finality"
+	}
+	return cl
 }
